@@ -1,6 +1,7 @@
-(* C18: the watch statement is false of the faithful model once a restore is in the schedule and
-   something of the earlier epoch is still around (a queued batch, or a topic buffer kept alive by a
-   watch that has not been released).  Both schedules were replayed on the real inmem.Store. *)
+(* C18: the watch statement is false of the faithful model once a restore is in the schedule and a
+   batch committed before it is still queued in publishCh.  (Topic buffers kept alive by unreleased
+   watches used to be a second way; RefreshTopic drops them since 2bf672d.)  Both schedules were
+   replayed on the real inmem.Store. *)
 From Verif Require Import Base.Prelude Resource.Model Resource.TableProofs Resource.CasProofs
      Resource.WatchDefs.
 Local Open Scope N_scope.
@@ -13,10 +14,10 @@ Definition xq : query := Query (RType [103] [107]) (Ten [112] [110]) [].
 Definition pre_a : list op := [OWrite (xres [97] [117;49] 0 1)].
 Definition post_a : list op := [ONext 0; ONext 0; OPublish; ONext 0].
 
-(* (b) a watch of the earlier epoch has not been closed: its topic buffer, holding the old event with
-   index 3, survives the restore (which resets the event index to 2) *)
-Definition pre_b : list op := [OWatch xq; OWrite (xres [97] [117;49] 0 1); OPublish].
-Definition post_b : list op := [ONext 1; OWrite (xres [98] [117;50] 0 2); OPublish; ONext 1; ONext 1].
+(* (b) the same residue makes a real event disappear: the stale batch carries index 3, the restore
+   resets the event index to 2, and the first commit of the new epoch gets index 3 again *)
+Definition pre_b : list op := [OWatch xq; OWrite (xres [97] [117;49] 0 1)].
+Definition post_b : list op := [OPublish; ONext 1; ONext 1; OWrite (xres [98] [117;50] 0 2); OPublish; ONext 1].
 
 Definition after_restore (pre : list op) : store := fst (step (run init pre) (ORestore [])).
 
@@ -70,10 +71,16 @@ Qed.
 Lemma clean_init : clean init.
 Proof. unfold clean, init. cbn. repeat split; try constructor. lia. Qed.
 
-(* a clean state is reached again after a restore once the old watches are released and the queue drained *)
-Lemma clean_after_restore :
-  clean (run (after_restore pre_b) [OClose 0]).
-Proof. unfold clean. vm_compute. repeat split; try discriminate. repeat constructor; discriminate. Qed.
+(* a restore of a store with nothing queued gives a clean state, whatever watches are still unreleased *)
+Lemma restore_clean st l : s_queue st = [] -> clean (fst (step st (ORestore l))).
+Proof.
+  intros Hq. unfold clean. cbn. rewrite Hq. repeat split; try lia.
+  apply Forall_forall. intros w Hw. apply in_map_iff in Hw as (x & <- & _). cbn. split; [reflexivity|].
+  destruct (w_state x); discriminate.
+Qed.
+
+Lemma clean_after_restore : clean (after_restore [OWatch xq; OWrite (xres [97] [117;49] 0 1); OPublish]).
+Proof. apply restore_clean. vm_compute. reflexivity. Qed.
 
 (* and a run on which the watch theorem delivers something: two commits in the gap, then one more *)
 Definition demo : list op :=
